@@ -59,6 +59,10 @@ CHECKS = {
             "exhaustive enumeration of API histories (depth-bounded) over the real and the rational modification interfaces (Rational and mpq_t entry points), each replayed on a fresh object and compared with an exact reference model over GMP rationals",
             "All histories up to depth 2 (thorough: 3 on a sub-alphabet) over ~120 instantiated calls of the real interface and of the rational interface (LPRowRational/LPColRational, Rational scalars and vectors, mpq_t scalars and arrays), from four initial states in automatic sync mode (empty, loaded, solved and persistently scaled, exactly solved), with values {-inf, 0, 1/3, 1e-320, 2^60+1, +inf, -1, 2, -7/5}. After the last call: the rational LP equals the model exactly (row- and column-wise), the real LP is the floating-point image of the model (one of the two neighbouring doubles; infinities map to infinities), dimensions and sense agree, and _rowTypes/_colTypes equal the classification of the rational bounds. Second phase: manual mode (one-sided histories followed by syncLPReal / syncLPRational) and real-only mode (an exact solve must copy the real LP exactly).",
             "Trusted: the exact reference model; doubles enter it as the exact rational they are. Whether the real image is the NEAREST double is recorded as an observation, not demanded. One genuine defect is in known_findings.json; the changeObjRational scaling defect was fixed."),
+    "C19": ("model_checking", "DESIGN.md section 3 C19",
+            "exhaustive depth-bounded enumeration of operation histories over the real container classes, each replayed on fresh objects and compared with std::vector/std::map reference models; exhaustive evaluation of every vector operation on every representation of all dimension-3 vectors over a 3-letter alphabet against exact GMP rationals; second pass under AddressSanitizer",
+            "All operation sequences up to depth 5-6 (thorough 6-8) over 25-70 instantiated calls per class for DataSet, ClassSet, SVSetBase, LPRowSet, LPColSet, IdxSet, DIdxSet, NameSet, DataHashTable (colliding hashes), DataArray, Array, ClassArray, IsList, IdList, from 2-4 initial states, with capacities small enough that every growth, pack and relocation path fires. After each sequence the container must agree with the model on numbering, keys, contents, lookups by key, number, name and address, perm witnesses, dead keys and capacity relations. Plus every vector operation for double and Rational on all 27 vectors of dimension 3 in all 98 sparse and 106 semi-sparse representations, products with all 19683 3x3 matrices held in an SVSet, sorter.h and StableSum on exhaustive small families.",
+            "Trusted: the models and exact arithmetic in the harness. Depth and the dimension-3 / 3-letter alphabet are the only bounds; deeper levels use a reduced alphabet after the first 2 (thorough 3) operations. Operation instances that corrupt memory on the unchanged tree run only as last operations in isolated children. 16 genuine defects are recorded in known_findings.json."),
 }
 
 NOT_YET = {}
